@@ -8,6 +8,7 @@ from .. import simnet
 from ..ref import ws as refws
 
 LEVEL = 'fault_enumeration'
+TECHNIQUE = 'runtime monitoring with abandonment enumeration (every event index x 4 mechanisms), resource-release oracle on simulated and real sockets'
 BUDGET_S = {'quick': 30, 'thorough': 180}
 REQUIRED = {'all': ['oracle.abandon_points_checked', 'oracle.sockets_checked', 'oracle.selectors_checked', 'oracle.real_socket_runs']}
 RULE = ('scenarios that between them yield every event kind (Connecting, Connected - also via proxy and TLS -, '
